@@ -39,7 +39,10 @@ def run_real(exe, workdir, stem, text, timeout=60):
                            env=dict(os.environ, RUST_BACKTRACE="0"), timeout=timeout)
     except subprocess.TimeoutExpired:
         return None, ["<timeout>"], ""
-    return p.returncode, p.stdout.split("\n")[:-1] if p.stdout.endswith("\n") else p.stdout.split("\n"), p.stderr[-400:]
+    lines = p.stdout.split("\n")
+    if lines and lines[-1] == "":
+        lines.pop()
+    return p.returncode, lines, p.stderr[-400:]
 
 
 def explore_impl(funcs, module_path, nin, assumptions, limits):
